@@ -526,6 +526,125 @@ example : (⟨3 / 2, 1 / 2⟩ : Pt ℝ) ∈ clipStrip 3 (upper env2 tri) := by
     refine ⟨Or.inl ⟨by norm_num, by norm_num⟩, ?_⟩
     ext <;> simp [crossAt]
 
+/-! ### the lower roll is the upper roll TURNED by 180°, not its mirror image at the pass line
+
+Both rolls of a two-roll pass are the same roll; the lower one is the upper one turned about the rolling axis, so the
+opening (and with it the out cross-section) is POINT symmetric.  For a contour that is mirror symmetric about its centre
+line the half-turn image and the mirror image at the pass line are the same vertex list, for every other contour (a
+groove with a steep and a shallow flank) they differ.  The theorems below pin the generated construction to the half
+turn and show, on a witness contour, that this is a different statement. -/
+
+/-- for EVERY interpretation of the library: the second line of `TwoRollPass.contour_lines` is the first one turned by 180
+    degrees about the origin, and the two lines are handed on in this order -/
+theorem two_lower_line_is_upper_turned :
+    two_line1 = .rotate two_line0 (.nat 180) ∧ two_lines = .concat two_line0 two_line1 := ⟨rfl, rfl⟩
+
+/-- on vertex lists: the generated upper line is the contour lifted by half the gap, the generated lower line IS its
+    half-turn image, vertex by vertex in the same order (`List.map ht`) -/
+theorem two_lower_line_is_half_turn (c : Src → List (Pt ℝ)) (valid : List (Pt ℝ) → Bool) (ρ : String → ℝ) :
+    two_line0.eval (VL c valid) ρ = upper ρ (c .rollContour) ∧
+    two_line1.eval (VL c valid) ρ = (upper ρ (c .rollContour)).map ht := by
+  simp only [two_line0, two_line1, GT.eval, VL, Expr.eval, PyNum.nat_real, rot180_eq_ht, upper]
+  simp
+
+/-- what the lower line would be if the lower roll were the MIRROR IMAGE of the upper one at the pass line:
+    `scale(upper, yfact=-1, origin=(0, 0))` with the coordinate order turned back (`LineString(lower.coords[::-1])`) -/
+def mirroredLower : GT := .reverse (.scale two_line0 (.nat 1) (.neg (.nat 1)))
+
+theorem mirroredLower_eval (c : Src → List (Pt ℝ)) (valid : List (Pt ℝ) → Bool) (ρ : String → ℝ) :
+    mirroredLower.eval (VL c valid) ρ = mirrorRev (upper ρ (c .rollContour)) := by
+  simp only [mirroredLower, two_line0, GT.eval, VL, Expr.eval, PyNum.nat_real, upper, mirrorRev]
+  simp
+  intro a _
+  ext <;> simp [flipY]
+
+theorem flipY_flipY (p : Pt ℝ) : flipY (flipY p) = p := by
+  ext <;> simp [flipY]
+
+/-- **when the two cannot be told apart**: the mirror image at the pass line (in ring order) equals the half-turn image
+    exactly for contours that are mirror symmetric about their centre line (`u` read backwards = `u` with `x ↦ -x`) -/
+theorem mirror_eq_half_turn_iff (u : List (Pt ℝ)) : mirrorRev u = u.map ht ↔ u.reverse = u.map flipX := by
+  have hinv : ∀ l : List (Pt ℝ), (l.map flipY).map flipY = l := by
+    intro l; simp [List.map_map, Function.comp_def, flipY_flipY]
+  have e1 : mirrorRev u = (u.reverse).map flipY := by simp [mirrorRev, List.map_reverse]
+  have e2 : u.map ht = (u.map flipX).map flipY := by
+    simp only [List.map_map, Function.comp_def]
+    rfl
+  rw [e1, e2]
+  constructor
+  · intro h
+    have := congrArg (List.map flipY) h
+    rwa [hinv, hinv] at this
+  · intro h; rw [h]
+
+/-- a SKEW groove: steep left flank, shallow right flank, deepest point off the middle (abscissae strictly increasing,
+    extent 4 like `tri`) -/
+def skew : List (Pt ℝ) := [⟨-2, 0⟩, ⟨-1, 2⟩, ⟨1, 1⟩, ⟨2, 0⟩]
+
+example : Incr skew := by simp [Incr, skew]
+
+theorem skew_spans : Spans (upper env2 skew) 4 := by
+  refine ⟨by norm_num, ?_, ⟨⟨-2, 0 + 1 / 2⟩, ?_, by norm_num⟩, ⟨⟨2, 0 + 1 / 2⟩, ?_, by norm_num⟩⟩
+  · intro p hp
+    simp only [upper, skew, List.map_cons, List.map_nil, List.mem_cons, List.not_mem_nil, or_false] at hp
+    rcases hp with rfl | rfl | rfl | rfl <;> norm_num
+  · simp [upper, skew, env2]
+  · simp [upper, skew, env2]
+
+theorem skew_not_mirror_symmetric (g : ℝ) :
+    (skew.map fun p => (⟨p.x, p.y + g⟩ : Pt ℝ)).reverse ≠ (skew.map fun p => (⟨p.x, p.y + g⟩ : Pt ℝ)).map flipX := by
+  intro h
+  simp [skew, flipX] at h
+
+/-- **the half turn is not the mirror image**: on the skew contour the generated lower line differs, at every gap, from
+    the line a lower roll mirrored at the pass line would give -/
+theorem half_turn_is_not_mirror_image (valid : List (Pt ℝ) → Bool) (ρ : String → ℝ) :
+    two_line1.eval (VL (fun _ => skew) valid) ρ ≠ mirroredLower.eval (VL (fun _ => skew) valid) ρ := by
+  rw [(two_lower_line_is_half_turn _ valid ρ).2, mirroredLower_eval]
+  intro h
+  exact skew_not_mirror_symmetric (ρ "gap" / 2) ((mirror_eq_half_turn_iff _).mp h.symm)
+
+/-- … whereas on the mirror symmetric contour `tri` both give the same line (why passes on symmetric grooves cannot tell a
+    mirrored lower roll from a turned one) -/
+example (valid : List (Pt ℝ) → Bool) :
+    two_line1.eval (VL (fun _ => tri) valid) env2 = mirroredLower.eval (VL (fun _ => tri) valid) env2 := by
+  rw [(two_lower_line_is_half_turn _ valid env2).2, mirroredLower_eval]
+  symm
+  rw [mirror_eq_half_turn_iff]
+  simp [upper, tri, flipX]
+
+/-- the out cross-section on the skew contour (width = extent): a vertex whose half-turn image is a vertex as well
+    (`clip_half_turn_symmetric`) but whose mirror image at the pass line is NOT - the section has the symmetry of the
+    pass (half turn) and no other -/
+theorem skew_section_not_mirror_symmetric :
+    ∃ q, q ∈ clipStrip 4 (upper env2 skew) ∧ ht q ∈ clipStrip 4 (upper env2 skew) ∧ flipY q ∉ clipStrip 4 (upper env2 skew) := by
+  have hq : (⟨-1, 2 + 1 / 2⟩ : Pt ℝ) ∈ clipStrip 4 (upper env2 skew) := by
+    rw [clipStrip_eq, mem_clipStripRing]
+    left
+    refine ⟨?_, by norm_num, by norm_num⟩
+    rw [mem_ring]
+    left
+    simp [upper, skew, env2]
+  refine ⟨⟨-1, 2 + 1 / 2⟩, hq, (clip_half_turn_symmetric 4 _ _).mp hq, ?_⟩
+  rw [clipStrip_eq, mem_clipStripRing]
+  rintro (⟨h, -, -⟩ | ⟨a, b, -, hc⟩)
+  · rw [mem_ring] at h
+    simp [upper, skew, env2, flipY, ht] at h
+    norm_num at h
+  · have := (mem_crossings_x _ _ a b _ hc).1
+    simp [flipY] at this
+    norm_num at this
+
+/-- the program on the skew contour: accepted at the width of the extent, result = the strip clip (so the theorems of this
+    part are not about symmetric contours only) -/
+example (valid : List (Pt ℝ) → Bool) (hv : valid (clipStrip 4 (upper env2 skew)) = true) :
+    two_cross_section.run (VL (fun _ => skew) valid) (fun n => if n = "width" then 4 else env2 n) =
+      .ok (clipStrip 4 (upper env2 skew)) := by
+  have hu : upper (fun n => if n = "width" then 4 else env2 n) skew = upper env2 skew := by simp [upper, env2]
+  have := (two_roll_accepted (fun _ => skew) valid (fun n => if n = "width" then 4 else env2 n) 4
+    (by simpa [hu] using skew_spans) (by simp) (by simp; norm_num) (by simpa [hu] using hv)).1
+  simpa [hu] using this
+
 /-! ## D. three rolls -/
 
 theorem rot120_eq : (rotPt (120 : ℝ) : Pt ℝ → Pt ℝ) = rot120 := by
